@@ -207,7 +207,12 @@ func ruleZ1(c *Ctx) {
 			return true
 		})
 		if !callsReset {
-			continue // setter-style Init(buf): not judged (documented in DESIGN.md)
+			// setter-style Init(buf): not judged (documented in DESIGN.md) - but the three re-initialising
+			// ones of the pinned tree must stay re-initialising
+			if k == "PPAIs.Init" || k == "PHdrVals.Init" || k == "PSIPMsg.Init" {
+				c.fail("Z1", k+":reset-first", fd.Pos(), "Init no longer calls Reset(): a used object passed to Init keeps its old state")
+			}
+			continue
 		}
 		first, _ := fd.Body.List[0].(*ast.ExprStmt)
 		c.check(first != nil && c.src(first.X) == recv+".Reset()", "Z1", k+":reset-first", fd.Pos(), "re-initialising Init calls Reset() before anything else")
@@ -230,6 +235,16 @@ func ruleZ1(c *Ctx) {
 		}
 	}
 	c.expectMin("Z1", 19+8)
+}
+
+// loopStartsAtZero: `for i := 0; ...` (the init statement sets the loop variable to the constant 0).
+func loopStartsAtZero(c *Ctx, l *ast.ForStmt, v string) bool {
+	as, ok := l.Init.(*ast.AssignStmt)
+	if !ok || len(as.Lhs) != 1 || len(as.Rhs) != 1 || c.src(as.Lhs[0]) != v {
+		return false
+	}
+	k, isC := c.constInt(as.Rhs[0])
+	return isC && k == 0
 }
 
 func firstLine(s string) string {
@@ -296,6 +311,8 @@ func ruleZ2(c *Ctx) {
 				done = true
 				bound := c.src(be.Y)
 				switch {
+				case (bound == "len("+sl+")" || bound == "len("+src+")") && !loopStartsAtZero(c, l, c.src(be.X)):
+					c.fail("Z2", key, l.Pos(), "the clearing loop does not start at element 0: the first element of "+path+" keeps its old state")
 				case bound == "len("+sl+")" || bound == "len("+src+")":
 					c.ok("Z2", key, l.Pos(), fmt.Sprintf("clearing loop covers all len(%s) elements (writers hand out &%s[N] before N++: %v)", path, path, writers))
 				default:
@@ -728,4 +745,60 @@ func ruleZ4(c *Ctx) {
 		}
 	}
 	c.check(n >= 4, "Z4", "count", token.NoPos, fmt.Sprintf("%d surviving arrays of re-initialising Init methods checked (frozen minimum 4)", n))
+	// the caller's array is the one attached when the caller supplied one: where Init tests a slice parameter against
+	// nil, the parameter is used (stored / handed on) on the non-nil edge and never on the nil edge
+	m := 0
+	for _, k := range c.funcKeys() {
+		fn := c.SFuncs[k]
+		if fn == nil || !strings.HasSuffix(k, ".Init") {
+			continue
+		}
+		for _, b := range fn.Blocks {
+			iff, ok := b.Instrs[len(b.Instrs)-1].(*ssa.If)
+			if !ok {
+				continue
+			}
+			bo, ok := iff.Cond.(*ssa.BinOp)
+			if !ok || (bo.Op != token.NEQ && bo.Op != token.EQL) {
+				continue
+			}
+			prm, ok := bo.X.(*ssa.Parameter)
+			kc, isC := bo.Y.(*ssa.Const)
+			if !ok || !isC || kc.Value != nil {
+				continue
+			}
+			if _, isSlice := prm.Type().Underlying().(*types.Slice); !isSlice {
+				continue
+			}
+			nn, nl := b.Succs[0], b.Succs[1]
+			if bo.Op == token.EQL {
+				nn, nl = nl, nn
+			}
+			uses := func(root *ssa.BasicBlock) bool {
+				for _, b2 := range fn.Blocks {
+					if !root.Dominates(b2) || len(root.Preds) != 1 {
+						continue
+					}
+					for _, ins := range b2.Instrs {
+						switch x := ins.(type) {
+						case *ssa.Store:
+							if x.Val == ssa.Value(prm) {
+								return true
+							}
+						case *ssa.Call:
+							for _, a := range x.Call.Args {
+								if a == ssa.Value(prm) {
+									return true
+								}
+							}
+						}
+					}
+				}
+				return false
+			}
+			m++
+			c.check(uses(nn) && !uses(nl), "Z4", k+":caller-array:"+prm.Name(), iff.Cond.Pos(), "the array the caller supplied is attached on the non-nil edge of the test and the private default on the nil edge")
+		}
+	}
+	c.check(m >= 2, "Z4", "nil-tests", token.NoPos, fmt.Sprintf("%d nil tests of caller-supplied arrays in Init methods (frozen minimum 2)", m))
 }
